@@ -40,6 +40,22 @@ def train():
     return _DF
 
 
+_OTHER = None
+
+
+def other_frame():
+    """Another data set with more levels of every factor."""
+    global _OTHER
+    if _OTHER is None:
+        df = frames.factorial({"f": 4, "g": 3, "h": 4, "k": 3}, reps=1, seed=9)
+        n = len(df)
+        df["yc"] = [["v", "u", "w", "t"][i % 4] for i in range(n)]
+        df["n"] = 12
+        df["s"] = [i % 5 for i in range(n)]
+        _OTHER = df
+    return _OTHER
+
+
 def new_frame(kind):
     df = train()
     if kind == "sub":
@@ -266,6 +282,17 @@ def check_case(case, acc):
                 level = nxt
                 if len(problems) > 30:
                     break
+        # a later design from the same formula text on other data must leave this one consistent
+        acc.calls += 1
+        try:
+            design_matrices(d, other_frame())
+        except Exception:
+            pass
+        for kind, root in roots:
+            if kind != "response":
+                tmp = []
+                check_object(kind, root, len(df), f"root {kind} after the same formula was built on another frame", tmp)
+                problems.extend([("earlier-object-unchanged", m) for _, m in tmp[:1]])
         acc.subcases(case, nstates, True, "derived-objects")
     except Exception as e:
         problems.append(("design-exists", f"{d!r} raised {type(e).__name__}: {e} @ {exc_sig(e)}"))
